@@ -263,7 +263,7 @@ def map_batch(acc, batch):
     for kind, n, naming, use_extra, callable_kind in batch:
         items = {"str": ["s0", "s1", "s2"], "tuple": [("t0", "u0"), ("t1", "u1"), ("t2", "u2")], "dict": [dict(a="d0", b="e0"), dict(a="d1"), dict(a="d2", b="e2")]}[kind][:n]
         func = tpl if callable_kind == "function" else Callable()
-        name = {"none": None, "string": "pre", "function": (lambda idx, t: f"n{idx}_{len(t.outputs)}")}[naming]
+        name = {"none": None, "string": "pre", "function": (lambda idx, t: f"n{idx}_{len(t.outputs)}"), "function_dup": (lambda idx, t: "same")}[naming]
         runs = []
         for _rep in range(2):
             wf = Workflow(working_dir="/wd")
@@ -274,7 +274,12 @@ def map_batch(acc, batch):
                 runs.append(f"{type(e).__name__}: {e}")
         case = dict(kind="map", items=kind, n=n, naming=naming, extra=use_extra, callable=callable_kind)
         problems = []
-        if isinstance(runs[0], str):
+        if naming == "function_dup":
+            # a naming function that gives two items the same name: names must be unique, so the definition must be rejected
+            # (never a workflow with fewer targets than items)
+            if n >= 2 and not isinstance(runs[0], str):
+                problems.append(f"duplicate names accepted: {runs[0][0]} for {n} items, workflow has {runs[0][1]}")
+        elif isinstance(runs[0], str):
             problems.append(runs[0])
         else:
             names, all_names, outs = runs[0]
@@ -283,7 +288,9 @@ def map_batch(acc, batch):
             if runs[0] != runs[1]:
                 problems.append("two runs differ")
             base = "tpl" if callable_kind == "function" else "Callable"
-            exp_names = {"none": [f"{base}_{i}" for i in range(n)], "string": [f"pre_{i}" for i in range(n)], "function": [f"n{i}_1" for i in range(n)]}[naming]
+            exp_names = {"none": [f"{base}_{i}" for i in range(n)], "string": [f"pre_{i}" for i in range(n)], "function": [f"n{i}_1" for i in range(n)]}.get(naming)
+            if exp_names is None:
+                exp_names = names
             if names != exp_names:
                 problems.append(f"names {names} expected {exp_names}")
             exp_outs = []
@@ -303,7 +310,7 @@ def run(ctx):
     ctx.pmap(me, "where_batch", [(h, w) for h in HOWS for w in WF_WDS], chunk=1)
     ctx.pmap(me, "names_batch", list(NAMES), chunk=4)
     ctx.pmap(me, "paths_batch", path_values(), chunk=8)
-    ctx.pmap(me, "map_batch", [(k, n, nm, ex, ck) for k in ("str", "tuple", "dict") for n in range(0, 4) for nm in ("none", "string", "function") for ex in (False, True)
+    ctx.pmap(me, "map_batch", [(k, n, nm, ex, ck) for k in ("str", "tuple", "dict") for n in range(0, 4) for nm in ("none", "string", "function", "function_dup") for ex in (False, True)
                                for ck in ("function", "instance")], chunk=8)
     ctx.rule = "where: (creation way, workflow working_dir, invoking directory); names: (name, entry point); paths: (value, container, side); map: (item kind, n, naming, extra, callable kind)"
     ctx.bound = dict(hows=len(HOWS), wf_wds=len(WF_WDS), invoke=len(INVOKE), names=len(NAMES), path_values=len(path_values()), containers=len(CONTAINERS))
